@@ -1,3 +1,4 @@
+import IceTie.Lifecycle
 import IceModel.Gather
 import IceSpec.C18
 import IceSpec.C03Gather
@@ -1127,5 +1128,31 @@ example : IceModel.ActiveTcp.publish { host := true, netEnabled := true, disable
 example : IceSpec.C18Active.violation { host := true, netEnabled := true, disableActive := false, mdnsGather := true, g13 := true }
     (IceModel.ActiveTcp.publish { host := true, netEnabled := true, disableActive := false, mdnsGather := true, g13 := true } 1)
     = some "interface address exposed in mDNS gather mode (active ICE-TCP candidate)" := by decide
+
+
+/-! ## Tie to the code (T, round 4): the `GatherCandidates` task and the start of the gathering goroutine (`IceGen.T_Lifecycle`) -/
+
+/-- a second `GatherCandidates` without Restart is refused with nothing but the error; an accepted one cancels the previous cycle
+first and starts a new one — the model's `gatherCall`; a cycle cancelled before its Gathering task ends without gathering — the
+model's `cycleStart` -/
+theorem C18_code_gather_task :
+    (∀ state noHandler, IceGen.agent_GatherCandidates_task state noHandler
+      = if state != 1 then [IceModel.Eff.set "gatherErr" (IceModel.Val.s "ErrMultipleGatherAttempted")]
+        else if noHandler then [IceModel.Eff.set "gatherErr" (IceModel.Val.s "ErrNoOnCandidateHandler")]
+        else IceTie.Lifecycle.acceptEffs) ∧
+    (∀ s : IceModel.GatherCycle.State, s.closed = false →
+      IceModel.GatherCycle.step s .gatherCall =
+        if s.gstate ≠ .new then some s
+        else some { s with cycles := IceModel.GatherCycle.cancelCur s ++ [{ ufrag := s.ufrag }],
+                           cur := some (IceModel.GatherCycle.cancelCur s).length }) ∧
+    (∀ (s : IceModel.GatherCycle.State) (cidx : Nat) (cy : IceModel.GatherCycle.Cycle),
+      s.cycles[cidx]? = some cy → cy.pc = .start → s.closed = false → cy.cancelled = true →
+      IceModel.GatherCycle.step s (.cycleStart cidx) = some { s with cycles := s.cycles.set cidx { cy with pc := .done } }) ∧
+    (∀ policy, IceGen.agent_gatherCandidates false false policy
+      = [IceTie.Lifecycle.deferClose, IceTie.Lifecycle.deferWait, IceTie.Lifecycle.c "setGatheringState(Gathering)"]) :=
+  ⟨IceTie.Lifecycle.GatherCandidates_task_tie, IceTie.Lifecycle.gatherCall_model, IceTie.Lifecycle.cycleStart_cancelled_model,
+   fun policy => by rw [IceTie.Lifecycle.gatherCandidates_tie]; rfl⟩
+
+example : IceGen.agent_GatherCandidates_task 1 true = [IceModel.Eff.set "gatherErr" (IceModel.Val.s "ErrNoOnCandidateHandler")] := by decide
 
 end IceProps.C18
